@@ -194,3 +194,36 @@ func Threads() int               { return 0 }
 func PanicMessage(v interface{}) string {
 	return fmt.Sprint(v)
 }
+
+// Outcome of a native run of a harness.
+type Outcome struct {
+	End      string   `json:"end"` // done | assert | panic
+	Label    string   `json:"label,omitempty"`
+	Observed []string `json:"observed"`
+}
+
+// RunNative executes a harness natively (replay) and reports how it ended.
+func RunNative(f func()) (out Outcome) {
+	Reset()
+	defer func() {
+		if p := recover(); p != nil {
+			if af, ok := p.(AssertFailure); ok {
+				out.End, out.Label = "assert", af.Label
+			} else {
+				out.End, out.Label = "panic", fmt.Sprint(p)
+			}
+		}
+		mu.Lock()
+		out.Observed = append([]string(nil), Observed...)
+		mu.Unlock()
+	}()
+	f()
+	out.End = "done"
+	return
+}
+
+// PrintOutcome writes the outcome as one JSON line prefixed by VERIF-OUTCOME.
+func PrintOutcome(o Outcome) {
+	b, _ := json.Marshal(o)
+	fmt.Println("VERIF-OUTCOME " + string(b))
+}
